@@ -315,6 +315,13 @@ func cmdCrash(args []string) {
 				}
 			}
 			res := map[string]interface{}{"h": e.h, "k": e.k, "K": e.K, "after": e.after}
+			// a faulted daemon keeps running: the same process goes on for two more blocks, so that what it
+			// holds in memory after the failure (the height to apply next) shows in the database
+			cont := e.h + 2
+			if cont > s.Tip {
+				cont = s.Tip
+			}
+			contRC := 0
 			switch *mode {
 			case "crash":
 				a := common(db, e.h, fmt.Sprintf("c%d", i))
@@ -361,7 +368,8 @@ func cmdCrash(args []string) {
 				fmu.Lock()
 				failReq[cl] = e.k
 				fmu.Unlock()
-				o := runChild(self, append(common(db, e.h, cl), "-timeout", "20s")...)
+				o := runChild(self, append(common(db, cont, cl), "-fault-h", fmt.Sprint(e.h), "-timeout", "20s")...)
+				contRC = o.rc
 				res["ev"] = "FaultExp"
 				res["kind"] = "req"
 				res["childrc"] = o.rc
@@ -375,7 +383,8 @@ func cmdCrash(args []string) {
 					res["childerr"] = o.stderr
 				}
 			case "stmtfault":
-				o := runChild(self, append(common(db, e.h, fmt.Sprintf("s%d", i)), "-fail-at", fmt.Sprint(e.k), "-timeout", "20s")...)
+				o := runChild(self, append(common(db, cont, fmt.Sprintf("s%d", i)), "-fault-h", fmt.Sprint(e.h), "-fail-at", fmt.Sprint(e.k), "-timeout", "20s")...)
+				contRC = o.rc
 				res["ev"] = "FaultExp"
 				res["kind"] = "stmt"
 				res["childrc"] = o.rc
@@ -385,6 +394,21 @@ func cmdCrash(args []string) {
 				if o.rc != 0 {
 					res["childerr"] = o.stderr
 				}
+			}
+			if *mode != "crash" {
+				// the database the faulted process leaves behind: whole blocks only, one version row per height; if the
+				// process survived the fault, exactly the blocks up to where it was told to stop
+				cs, cdg, csv, cerr := inspect(db)
+				res["contTo"] = cont
+				res["contSynced"] = cs
+				ok := cerr == nil && csv && cs >= 0 && cdg == ref.digest[uint32(cs)]
+				if contRC == 0 {
+					ok = ok && cs == int64(cont)
+				}
+				if cerr != nil && e.h-1 == config.PegnetActivation && !fileExists(db+".v4") {
+					ok = contRC != 0
+				}
+				res["contOK"] = ok
 			}
 			// resume (a supervisor would restart a dead daemon): to the tip, or a few blocks on
 			target := s.Tip
